@@ -613,8 +613,8 @@ pub fn general_position(a: &MP, b: &MP, sep: f64, min_sin: f64, self_crossing: b
 pub fn gen_general(rng: &mut Rng, max_vertices: usize, snap: f64, f32_ok: bool, self_crossing: bool) -> Option<Case> {
     let rmax = if snap > 0.0 { [12.0, 40.0, 1000.0, 2.0e7][rng.below(4) as usize] } else { [10.0, 1e-3, 1e5, 1.0][rng.below(4) as usize] };
     let (cx, cy) = if snap > 0.0 { (0.0, 0.0) } else { (rmax * (rng.unit() - 0.5) * 4.0, rmax * (rng.unit() - 0.5) * 4.0) };
-    let parts_a = if self_crossing { 1 } else { rng.range(1, 2) as usize };
-    let parts_b = if self_crossing { 1 } else { rng.range(1, 2) as usize };
+    let parts_a = if self_crossing { 1 } else { rng.range(1, 3) as usize };
+    let parts_b = if self_crossing { 1 } else { rng.range(1, 3) as usize };
     let mk = |rng: &mut Rng, ox: f64, oy: f64, r: f64| -> Ring {
         let n = rng.range(3, max_vertices as i64) as usize;
         if self_crossing {
@@ -636,11 +636,14 @@ pub fn gen_general(rng: &mut Rng, max_vertices: usize, snap: f64, f32_ok: bool, 
                 mp[0].push(hole);
             }
         } else {
-            // two parts side by side (disjointness is verified by the filter below)
-            let off = rmax * 1.3;
-            let (y1, y2) = (cy + rmax * (rng.unit() - 0.5), cy + rmax * (rng.unit() - 0.5));
-            mp.push(vec![mk(rng, cx - off, y1, rmax)]);
-            mp.push(vec![mk(rng, cx + off, y2, rmax)]);
+            // several parts around the centre (disjointness is verified by the filter below)
+            let phase = rng.unit() * std::f64::consts::TAU;
+            let d = rmax * 1.4;
+            for k in 0..parts {
+                let ang = phase + k as f64 / parts as f64 * std::f64::consts::TAU;
+                let (ox, oy) = (cx + d * ang.cos() + rmax * 0.2 * (rng.unit() - 0.5), cy + d * ang.sin() + rmax * 0.2 * (rng.unit() - 0.5));
+                mp.push(vec![mk(rng, ox, oy, rmax)]);
+            }
         }
         mp
     };
@@ -672,8 +675,12 @@ pub fn gen_general(rng: &mut Rng, max_vertices: usize, snap: f64, f32_ok: bool, 
                     }
                 }
             }
-            if mp.len() == 2 && (in_ring(&mp[0][0], mp[1][0][0].0, mp[1][0][0].1) || in_ring(&mp[1][0], mp[0][0][0].0, mp[0][0][0].1)) {
-                return None;
+            for i in 0..mp.len() {
+                for j in 0..mp.len() {
+                    if i != j && in_ring(&mp[i][0], mp[j][0][0].0, mp[j][0][0].1) {
+                        return None;
+                    }
+                }
             }
         }
     }
